@@ -286,8 +286,9 @@ Definition spellings (p : period) : list string :=
 Definition period_limit_impl (i : ind) : Z :=
   match i with IA => 1 | IS => 2 | IQ => 4 | IM => 12 | IW => 52 | ID => 365 end.
 
-(* vtl_tp_shift; DuckDB `//` and `%` on integers truncate toward zero = Z.quot / Z.rem *)
-Definition shift_impl (p : period) (n : Z) : period :=
+(* vtl_tp_shift BEFORE fix 1bd5380 (kept as a regression witness only): one arithmetic for every indicator with the constant limits;
+   DuckDB `//` and `%` on integers truncate toward zero = Z.quot / Z.rem.  The A/S/Q/M branches are still the macro's. *)
+Definition shift_before_fix (p : period) (n : Z) : period :=
   match p_ind p with
   | IA => mkP (p_year p + n) IA 1
   | i =>
@@ -368,6 +369,16 @@ Definition time_agg_of_end (e : option Z) (p : period) (target : ind) : agg_res 
   else if ind_eqb (p_ind p) target then AggOk p
   else match e with Some z => AggOk (time_agg_date_impl z target) | None => AggRaw end.
 Definition time_agg_tp_impl (p : period) (target : ind) : agg_res := time_agg_of_end (end_date_impl p) p target.
+
+(* vtl_tp_shift (after fix 1bd5380): weeks and days go through the calendar,
+   vtl_time_agg_date(vtl_tp_start_date(p) + INTERVAL (7*n | n) DAY, 'W' | 'D'); None = DuckDB raises (week number outside 1..53) *)
+Definition shift_impl (p : period) (n : Z) : option period :=
+  match p_ind p with
+  | IW => option_map (fun z => time_agg_date_impl (z + 7 * n) IW) (start_date_impl p)
+  | ID => option_map (fun z => time_agg_date_impl (z + n) ID) (start_date_impl p)
+  | _ => Some (shift_before_fix p n)
+  end.
+Definition enc_op (o : option period) : Z := match o with Some p => p_year p * 1000 + p_num p | None => 9999999 end.
 
 (* ------------------------------------------------------------------ init.sql: strings *)
 Inductive sres := SOk (s : string) | SNull | SErr.
@@ -668,24 +679,10 @@ Definition tie_scalar_rows (i : ind) (y : Z) : list (list Z) :=
   map (fun n => tie_scalar_row (mkP y i n)) (zrange 1 (static_max i)).
 
 (* vtl_tp_shift for a list of shifts *)
-Definition tie_shift_row (p : period) (ns : list Z) : list Z := map (fun n => enc_p (shift_impl p n)) ns.
+Definition tie_shift_row (p : period) (ns : list Z) : list Z := map (fun n => enc_op (shift_impl p n)) ns.
 Definition tie_shift_rows (i : ind) (y : Z) (ns : list Z) : list (list Z) :=
   map (fun n => tie_shift_row (mkP y i n) ns) (zrange 1 (static_max i)).
-(* where the macro leaves the calendar: valid periods whose macro shift differs from the calendar shift,
-   encoded (num * 1000 + n + 500) * 10^7 + calendar result *)
-(* A/S/Q/M and the W/D shifts that stay within 1..52 / 1..365 of the year are proved equal (C08_macro_shift_partial,
-   C08_macro_shift_within_year): only the remaining pairs are evaluated *)
-Definition tie_shift_diff (i : ind) (y : Z) (ns : list Z) : list Z :=
-  match i with
-  | IW | ID =>
-    flat_map (fun num => let p := mkP y i num in
-      flat_map (fun n => if (1 <=? num + n) && (num + n <=? period_limit_impl i) then []
-                         else if period_eqb (shift_impl p n) (shift p n) then []
-                         else [(num * 1000 + n + 500) * 10000000 + enc_p (shift p n)]) ns)
-      (zrange 1 (periods_in_year i y))
-  | _ => []
-  end.
-(* same for the step used by fill_time_series *)
+(* where the step used by fill_time_series (still the constant limits) leaves the calendar: num * 10^7 + calendar result *)
 Definition tie_next_diff (i : ind) (y : Z) : list Z :=
   flat_map (fun num => let p := mkP y i num in
     if period_eqb (next_impl p) (next_period p) then [] else [num * 10000000 + enc_p (next_period p)])
@@ -693,7 +690,7 @@ Definition tie_next_diff (i : ind) (y : Z) : list Z :=
 
 Definition tie_period_fp (i : ind) (y : Z) (ns : list Z) : list Z :=
   [periods_in_year i y; fpz (List.concat (tie_scalar_rows i y)); fpz (List.concat (tie_shift_rows i y ns))]
-  ++ tie_next_diff i y ++ [-1] ++ tie_shift_diff i y ns.
+  ++ tie_next_diff i y.
 
 (* DuckDB date builtins against Calendar, one row per day of year y; vtl_time_agg_date; vtl_dateadd for the shifts ns *)
 Definition tie_calendar_row (ns : list Z) (us : list ind) (z : Z) : list Z :=
@@ -746,7 +743,7 @@ Definition tie_py_shift_fp (i : ind) (y : Z) (ns : list Z) : list Z := [fpz (Lis
 
 (* ------------------------------------------------------------------ expectations of the dataset-level correspondence (K) *)
 Definition k_shift (n : Z) (ps : list period) : list Z :=
-  map (fun p => enc_p (shift p n)) ps ++ map (fun p => enc_p (shift_impl p n)) ps.
+  map (fun p => enc_p (shift p n)) ps ++ map (fun p => enc_op (shift_impl p n)) ps.
 Definition k_index (ps : list period) : list Z := flat_map (fun p => [if period_valid p then 1 else 0; index p]) ps.
 Definition k_scalar (ps : list period) : list Z := flat_map (fun p => [getyear p; getmonth p; dayofmonth p; dayofyear p]) ps.
 Definition k_agg (t : ind) (ps : list period) : list Z :=
@@ -759,4 +756,5 @@ Definition k_dateadd (n : Z) (u : ind) (zs : list Z) : list Z := map (fun z => e
 Definition k_tp_dateadd (n : Z) (u : ind) (ps : list period) : list Z := map (fun p => enc_date (dateadd (end_date p) n u)) ps.
 Definition k_datediff (ps qs : list period) : list Z := map (fun pq => datediff (fst pq) (snd pq)) (combine ps qs).
 Definition k_date_diff (zs ws : list Z) : list Z := map (fun zw => Z.abs (fst zw - snd zw)) (combine zs ws).
-Definition k_shift_inv (n : Z) (ps : list period) : list Z := map (fun p => enc_p (shift_impl (shift_impl p n) (- n))) ps.
+Definition k_shift_inv (n : Z) (ps : list period) : list Z :=
+  map (fun p => enc_op (opt_bind (shift_impl p n) (fun q => shift_impl q (- n)))) ps.
